@@ -582,3 +582,69 @@ func stripChangeType(v ssa.Value) ssa.Value {
 		v = ct.X
 	}
 }
+
+// ColumnIsFirstOccurrence (R9.6): the column of a merge conflict is the position of the FIRST occurrence of the
+// symbol on the located line (strings.Index): the declared name stands before any later mention of it on the same
+// line (`define member: [user, group#member]`), so a search from the right points at the wrong text.
+func ColumnIsFirstOccurrence(p *load.Prog, r *oblig.Report, rule string) {
+	fn := p.Func("utils", "ConstructLineAndColumnData")
+	construct := "column-first-occurrence:ConstructLineAndColumnData"
+	if fn == nil {
+		r.Unknown(rule, construct, "-", "ConstructLineAndColumnData not found")
+		return
+	}
+	var sym *ssa.Parameter
+	for _, q := range fn.Params {
+		if b, ok := q.Type().Underlying().(*types.Basic); ok && b.Kind() == types.String {
+			sym = q
+		}
+	}
+	found, bad := 0, ""
+	seen := map[*ssa.Function]bool{}
+	var scan func(f *ssa.Function, depth int)
+	scan = func(f *ssa.Function, depth int) {
+		if seen[f] || depth > 2 {
+			return
+		}
+		seen[f] = true
+		for _, b := range f.Blocks {
+			for _, in := range b.Instrs {
+				call, ok := in.(*ssa.Call)
+				if !ok {
+					continue
+				}
+				c := call.Common().StaticCallee()
+				if c == nil || c.Pkg == nil {
+					continue
+				}
+				if c.Pkg == fn.Pkg && len(c.Blocks) > 0 {
+					scan(c, depth+1)
+					continue
+				}
+				if c.Pkg.Pkg.Path() != "strings" || len(call.Common().Args) != 2 {
+					continue
+				}
+				// a search for the symbol in a line
+				arg := call.Common().Args[1]
+				if f == fn && arg != ssa.Value(sym) {
+					continue
+				}
+				switch c.Name() {
+				case "Index":
+					found++
+				case "LastIndex", "LastIndexAny", "IndexAny", "LastIndexByte":
+					bad = "strings." + c.Name() + " at " + p.Pos(call.Pos())
+				}
+			}
+		}
+	}
+	scan(fn, 0)
+	switch {
+	case bad != "":
+		r.Bad(rule, construct, p.Pos(fn.Pos()), "the column is searched with "+bad+": when the name occurs again further right on its line (a self-reference in the definition) the reported column is that of the later mention")
+	case found == 0:
+		r.Unknown(rule, construct, p.Pos(fn.Pos()), "no strings.Index search for the symbol found")
+	default:
+		r.OK(rule, construct, p.Pos(fn.Pos()), "call-scan", "strings.Index(line, symbol): first occurrence")
+	}
+}
